@@ -30,6 +30,8 @@ func init() {
 				Doc: "A piece cut from Accept/Content-Type is trimmed after its last cut and before it is compared with Produces/Consumes entries; trimming first and cutting afterwards leaves the blank before ';' in the token and a legal header is refused (or a different route admitted)."},
 			{ID: "C01.f", Template: "T-SIBLING", Required: false, Run: ruleSubmatchContext,
 				Doc: "'Custom-verb suffix equal': text captured by a group of a package-level pattern (the verb letters out of ':verb') is used to test the request token only with the pattern's literal context put back (':' in front). Testing with the letters alone takes 'nocancel' for ':cancel'."},
+			{ID: "C01.g", Template: "T-ARGS", Required: false, SourceOnly: true, Run: ruleArgumentOrder,
+				Doc: "Route token and request token, template tokens and URL tokens, root path and route path have the same type; a call that passes the variable named like the callee's second parameter first and the one named like the first second has them crossed (isMatchCustomVerb(requestToken, routeToken)). Decided on names, and only for an exact crosswise match; a call whose arguments are not named like the parameters is not judged."},
 		},
 	})
 }
